@@ -41,9 +41,12 @@ RECURSIVE CombFrom(_, _, _)
 CombFrom(lo, n, k) ==
     IF k = 0 THEN << <<>> >>
     ELSE IF lo > n - k THEN <<>>
-    ELSE [i \in 1..Len(CombFrom(lo + 1, n, k - 1)) |-> <<lo>> \o CombFrom(lo + 1, n, k - 1)[i]]
-         \o CombFrom(lo + 1, n, k)
+    ELSE LET sub == CombFrom(lo + 1, n, k - 1) IN
+         [i \in 1..Len(sub) |-> <<lo>> \o sub[i]] \o CombFrom(lo + 1, n, k)
 Comb(n, k) == CombFrom(0, n, k)
+Comb42 == Comb(4, 2)
+Comb65 == Comb(6, 5)
+Comb75 == Comb(7, 5)
 
 IsIncreasing(row) == \A i \in 1..(Len(row) - 1) : row[i] < row[i + 1]
 SeqLexLt(a, b) == \E i \in 1..Len(a) : a[i] < b[i] /\ \A j \in 1..(i - 1) : a[j] = b[j]
